@@ -70,7 +70,7 @@ CLAIMED.update({
             "enumerated on small universes.", GEN_NOTE, TECH),
     "C12": ("DESIGN.md 6/C12", "Lean 4 theorems C12_holds / C12_perm: order by mean positional score per variant and family, "
             "refusal rule, independence of ranking order.", GEN_NOTE + " Mean comparison by cross-multiplication.", TECH),
-    "C13": ("DESIGN.md 6/C13", "Lean 4 theorems C13_holds (victory classes, scores, totals, order) and C13_counts_perm / C13_perm (counts and consensus independent of the order of the input rankings), C13_counts_rename / C13_rename (equivariance under injective renaming of the elements).", GEN_NOTE, TECH),
+    "C13": ("DESIGN.md 6/C13", "Lean 4 theorems C13_holds (victory classes, scores, totals, order) and C13_counts_perm / C13_perm (counts and consensus independent of the order of the input rankings), C13_counts_rename / C13_rename / C13_features_rename (equivariance under injective renaming of the elements).", GEN_NOTE, TECH),
     "C14": ("DESIGN.md 6/C14", "Lean 4 theorems over all nested configurations: relevant => never refused, complete never "
             "refused, exact refusal for Borda / PickAPerm / BioCo / BioConsert from them; guards of the concrete models; the selector "
             "get_algorithm builds the class each enum member names and the members listed as compatible with any scheme are (C14b); tied "
